@@ -730,17 +730,21 @@ Section Seq.
     exists vs rest, cells a = map Some vs ++ rest /\ length vs = nitems a /\ length (cells a) = nslots a.
   Definition l_inv (l : llist) : Prop := lnitems l = length (lelems l).
   (* pairwise distinct pointers (finding F3: Tuple iteration is by pointer identity) *)
-  Definition distinct (vs : list E) : Prop :=
-    ForallOrdPairs (fun x y => same x y = false /\ same y x = false) vs.
+  Fixpoint distinct (vs : list E) : Prop :=
+    match vs with
+    | [] => True
+    | x :: r => (forall y, In y r -> same x y = false /\ same y x = false) /\ distinct r
+    end.
   Definition t_inv (t : tuple) : Prop :=
     theap t = true /\ exists vs, titems t = map TObj vs ++ [TTerm] /\ distinct vs.
 
   (* the pointers an operation stores into a Tuple must be new to it and pairwise distinct *)
-  Definition new_to (vs : list E) (v : E) : Prop := Forall (fun x => same x v = false /\ same v x = false) vs.
+  Definition new_to (vs : list E) (v : E) : Prop :=
+    forall x, In x vs -> same x v = false /\ same v x = false.
   Definition t_fresh (vs : list E) (o : sop) : Prop :=
     match o with
     | SPush v | SAppend v | SPushAt _ v | SSet _ v => new_to vs v
-    | SConcat ws => distinct ws /\ Forall (new_to vs) ws
+    | SConcat ws => distinct ws /\ forall w, In w ws -> new_to vs w
     | SAssign ws => distinct ws
     | _ => True
     end.
